@@ -149,10 +149,14 @@ RUpd(a, e) ==
          LET b == WithSink(a, e.s) IN [b EXCEPT !.alive[e.s] = @ \ {e.h}]
     [] OTHER -> a
 
-EvCheck(a, e) == IF a.kind = "singleton" THEN SCheck(a, e)
+\* Reset{kind}: the trace goes on with a new, independent component instance (thorough tier
+\* packs several cases into one process); the machine starts afresh.
+EvCheck(a, e) == IF e.e = "Reset" THEN (IF e.kind \in {"singleton", "refcounted"} THEN "ok" ELSE "harness.kind")
+                 ELSE IF a.kind = "singleton" THEN SCheck(a, e)
                  ELSE IF a.kind = "refcounted" THEN RCheck(a, e)
                  ELSE "harness.kind"
-EvUpd(a, e) == IF a.kind = "singleton" THEN SUpd(a, e) ELSE RUpd(a, e)
+EvUpd(a, e) == IF e.e = "Reset" THEN A0(e.kind)
+               ELSE IF a.kind = "singleton" THEN SUpd(a, e) ELSE RUpd(a, e)
 
 \* fold a sequence of events: [a, chk] with chk the first failing clause
 RECURSIVE EvFold(_, _, _)
